@@ -1103,6 +1103,8 @@ def test_kinematic(case, note):
         keys[k] = get(rel, note, k)
         if keys[k] is None:
             return
+        if k in ("uup4", "gdown4", "gup4"):
+            keys[k] = np.array(keys[k], copy=True)   # value at first read
     u, g, gi = keys["uup4"], keys["gdown4"], keys["gup4"]
     # harness-side projector from the metric and the velocity
     ud = np.einsum('ab...,b...->a...', g, u)
@@ -1128,6 +1130,17 @@ def test_kinematic(case, note):
     chk("thetadown4:decomposition",
         th - sig - keys["theta"] * hdn / 3.0)
     chk("omegadown4:antisymmetric", om + np.swapaxes(om, 0, 1))
+    # the metric read again after everything built from it
+    for k in ("gup4", "gdown4", "uup4"):
+        again = get(rel, note, k)
+        if again is not None and not np.array_equal(again, keys[k]):
+            note.fail(f"{k}:changed-after-dependants",
+                      dict(maxdiff=float(np.max(np.abs(again - keys[k])))))
+    gi2 = get(rel, note, "gup4")
+    if gi2 is not None:
+        chk("gup4:inverse-after-dependants",
+            (np.einsum('ac...,cb...->ab...', gi2, g)
+             - np.eye(4).reshape(4, 4, 1, 1, 1)) * float(np.max(np.abs(th))))
     chk("hdown4:value", (keys["hdown4"] - hdn) * float(np.max(np.abs(th))))
     chk("hup4:value", (keys["hup4"] - hup) * float(np.max(np.abs(th))))
 
